@@ -9,7 +9,7 @@ from ..absint import Interp
 from ..model import AnalysisError, ClassInfo, FuncInfo, dotted, norm, walk_no_nested
 from ..report import rule
 from ..shape import Alt, Attr, CallV, Index, ListOf, Lit, Node, Param, Seq, Shaper, alts, chain, is_lit, nodes, seq_items
-from ..util import calls_named, cfg_of, is_const, is_name, key, kw, names_in, site_packages_source, stdlib_source, strip_pre
+from ..util import allargs, calls_named, cfg_of, is_const, is_name, key, kw, names_in, site_packages_source, stdlib_source, strip_pre
 
 PG = "client_generators.package:PackageGenerator"
 CGEN = "client_generators.client:ClientGenerator."
@@ -128,7 +128,7 @@ def _check_remove_blank_lines(ctx):
         probs.append("does not iterate the lines of the code")
     else:
         lv = norm(loops[0].target)
-        if not appended or any(not (c.args and norm(c.args[0]) == lv) for c in appended):
+        if not appended or any(not (allargs(c) and norm(allargs(c)[0]) == lv) for c in appended):
             probs.append("appends something other than the unchanged line")
         for c in walk_no_nested(fi.node):
             if isinstance(c, ast.Call) and isinstance(c.func, ast.Attribute) and c.func.attr in ("replace", "strip", "lstrip", "rstrip", "format", "translate", "sub"):
@@ -174,7 +174,7 @@ def c02_r1(ctx):
     for fi in repo.all_functions():
         for c in walk_no_nested(fi.node):
             if isinstance(c, ast.Call) and isinstance(c.func, ast.Name) and repo.resolve(fi.module, c.func.id) == ("func", a2s):
-                v = kw(c, "multiline_strings") or (c.args[2] if len(c.args) > 2 else None)
+                v = kw(c, "multiline_strings") or (allargs(c)[2] if len(allargs(c)) > 2 else None)
                 if v is not None and not is_const(v, False):
                     ctx.note(f"{fi.key} enables multiline_strings ({norm(v)})")
     # comment prefixing keeps the code unchanged
@@ -321,7 +321,7 @@ def c02_r6(ctx):
         probs.append(f"{len(v)} validate calls")
     else:
         c = v[0]
-        if norm(kw(c, "schema") or (c.args[0] if c.args else ast.Constant(0))) != "schema":
+        if norm(kw(c, "schema") or (allargs(c)[0] if allargs(c) else ast.Constant(0))) != "schema":
             probs.append("validation is not against the given schema")
         r = kw(c, "rules")
         if r is not None:
@@ -367,7 +367,7 @@ def c04_r1(ctx):
         for c in walk_no_nested(fi.node):
             if isinstance(c, ast.Call) and isinstance(c.func, ast.Name) and c.func.id.startswith("GraphQL") and c.func.id.endswith("Type"):
                 n += 1
-                v = kw(c, "name") or (c.args[0] if c.args else None)
+                v = kw(c, "name") or (allargs(c)[0] if allargs(c) else None)
                 val = None
                 if v is not None:
                     try:
@@ -401,7 +401,7 @@ def c04_r2(ctx):
                           okmsg=f"{name}: {base} written => reported")
         for c in walk_no_nested(fi.node):
             if isinstance(c, ast.Call) and norm(c.func) == "self._generated_files.append":
-                a = c.args[0] if c.args else None
+                a = allargs(c)[0] if allargs(c) else None
                 ok = isinstance(a, ast.Attribute) and a.attr == "name" and any(norm(w.func.value) == norm(a.value) for w in calls_named(fi.node, "write_text"))
                 ctx.check(ok, key(fi, f"report {norm(a) if a is not None else None}"), "a file name is reported that this method does not write", fi.loc(c), okmsg=f"{name}: reported name belongs to a written file")
     gen = repo.func(PG + ".generate")
@@ -501,9 +501,9 @@ def c04_r5(ctx):
         if mod is None or norm(mod) != "ast.Module(body=self.imports, type_ignores=[])":
             probs.append("module body is not the list of imports")
         app = [c for c in walk_no_nested(fi.node) if isinstance(c, ast.Call) and norm(c.func) == "module.body.append"]
-        good = len(app) == 1 and isinstance(app[0].args[0], ast.Call) and norm(app[0].args[0].func) == "ast.Assign"
+        good = len(app) == 1 and isinstance(allargs(app[0])[0], ast.Call) and norm(allargs(app[0])[0].func) == "ast.Assign"
         if good:
-            a = app[0].args[0]
+            a = allargs(app[0])[0]
             tv = kw(a, "targets")
             vv = kw(a, "value")
             good = tv is not None and "'__all__'" in norm(tv) and vv is not None and norm(vv) == "ast.List(elts=[ast.Constant(value=n) for n in constants_names])"
@@ -539,7 +539,7 @@ def c04_r6(ctx):
     good = len(apps) == 1
     if good:
         env_ = {st.targets[0].id: st.value for st in ast.walk(fr.node) if isinstance(st, ast.Assign) and len(st.targets) == 1 and isinstance(st.targets[0], ast.Name)}
-        a0 = apps[0].args[0]
+        a0 = allargs(apps[0])[0]
         base = a0.value.value if isinstance(a0, ast.Attribute) and a0.attr == "name" and isinstance(a0.value, ast.Subscript) else None
         base = env_.get(base.id, base) if isinstance(base, ast.Name) else base
         good = base is not None and norm(base) == "generator.get_classes()"
@@ -673,7 +673,7 @@ def c04_r4(ctx):
     fi = repo.func(RF + "parse_enum_type")
     app = [c for c in walk_no_nested(fi.node) if isinstance(c, ast.Call) and norm(c.func) == "context.enums.append"]
     ann = calls_named(fi.node, "generate_annotation_name")
-    good = len(app) == 1 and len(ann) == 1 and norm(app[0].args[0]) == norm(ann[0].args[0]) == "type_.name"
+    good = len(app) == 1 and len(ann) == 1 and norm(allargs(app[0])[0]) == norm(allargs(ann[0])[0]) == "type_.name"
     ctx.check(good, key(fi, "enum recorded"), "an enum used in a result annotation is not recorded for import under the same name", fi.loc(), okmsg="result enum annotation => recorded in context.enums")
     fi = repo.func(RF + "parse_scalar_type")
     def atom(simple, custom):
@@ -834,8 +834,8 @@ def c09_r2(ctx):
     consumed = set()
     for fi in pg.methods.values():
         for c in walk_no_nested(fi.node):
-            if isinstance(c, ast.Call) and norm(c.func) == "self._used_enums.extend" and c.args and isinstance(c.args[0], ast.Call) and isinstance(c.args[0].func, ast.Attribute) and c.args[0].func.attr == "get_used_enums":
-                consumed.add(norm(c.args[0].func.value))
+            if isinstance(c, ast.Call) and norm(c.func) == "self._used_enums.extend" and allargs(c) and isinstance(allargs(c)[0], ast.Call) and isinstance(allargs(c)[0].func, ast.Attribute) and allargs(c)[0].func.attr == "get_used_enums":
+                consumed.add(norm(allargs(c)[0].func.value))
     want = {"self.input_types_generator": "InputTypesGenerator", "self.fragments_generator": "FragmentsGenerator",
             "self.client_generator.arguments_generator": "ArgumentsGenerator", "query_types_generator": "ResultTypesGenerator"}
     for expr, cls in want.items():
@@ -848,8 +848,8 @@ def c09_r2(ctx):
             if n.kind != "stmt" or n.ast is None:
                 continue
             for c in ast.walk(n.ast):
-                if isinstance(c, ast.Call) and norm(c.func) == "self._used_enums.extend" and c.args and isinstance(c.args[0], ast.Call) and isinstance(c.args[0].func, ast.Attribute) and c.args[0].func.attr == "get_used_enums":
-                    src = norm(c.args[0].func.value)
+                if isinstance(c, ast.Call) and norm(c.func) == "self._used_enums.extend" and allargs(c) and isinstance(allargs(c)[0], ast.Call) and isinstance(allargs(c)[0].func, ast.Attribute) and allargs(c)[0].func.attr == "get_used_enums":
+                    src = norm(allargs(c)[0].func.value)
                     # (i) not skipped on a path that still writes a file
                     writes = [w for w in g.stmts() if w.kind == "stmt" and w.ast is not None and calls_named(w.ast, "write_text")]
                     skipped = [w for w in writes if g.exit.id in g.reach([w], avoid={n.id}) and n.id not in g.reach([g.entry], avoid={w.id}) or (w.id in g.reach([g.entry], avoid={n.id}) and g.exit.id in g.reach([w], avoid={n.id}))]
@@ -872,7 +872,7 @@ def c09_r2(ctx):
         ms = m.short
         if not (ms.startswith("client_generators") or ms == "codegen") or ms.startswith("client_generators.dependencies"):
             continue
-        uses = [n for n in ast.walk(m.tree) if isinstance(n, ast.Call) and is_name(n.func, "isinstance") and len(n.args) == 2 and "GraphQLEnumType" in norm(n.args[1])]
+        uses = [n for n in ast.walk(m.tree) if isinstance(n, ast.Call) and is_name(n.func, "isinstance") and len(allargs(n)) == 2 and "GraphQLEnumType" in norm(allargs(n)[1])]
         if not uses:
             continue
         if ms in feeders:
@@ -964,9 +964,9 @@ def c09_r4(ctx):
     handled = False
     for x in ast.walk(lp):
         if isinstance(x, ast.Call):
-            if isinstance(x.func, ast.Name) and any(x.func.id == g2.qualname.rsplit(".", 1)[-1] for g2 in scope) and x.args and norm(x.args[0]) == nb:
+            if isinstance(x.func, ast.Name) and any(x.func.id == g2.qualname.rsplit(".", 1)[-1] for g2 in scope) and allargs(x) and norm(allargs(x)[0]) == nb:
                 handled = True  # recursion into the neighbour
-            if isinstance(x.func, ast.Attribute) and x.func.attr in ("append", "extend", "add", "appendleft") and x.args and nb in norm(x.args[0]) and norm(x.func.value) not in ("result", "visited"):
+            if isinstance(x.func, ast.Attribute) and x.func.attr in ("append", "extend", "add", "appendleft") and allargs(x) and nb in norm(allargs(x)[0]) and norm(x.func.value) not in ("result", "visited"):
                 handled = True  # pushed on a worklist
     if not handled:
         probs.append("a dependency is neither recursed into nor pushed on a worklist")
@@ -1056,7 +1056,7 @@ def c17_r1(ctx):
             if fname.endswith("_name") and ann is not None and norm(ann) == "str" and fname not in table:
                 ctx.fail(f"settings::{ci.qualname}::{fname}", f"setting {fname} becomes a Python/module name but is not validated in __post_init__", ci.loc())
         for fname, fn in sorted(table.items()):
-            nodes_ = [n for n in g.stmts() if n.kind == "stmt" and n.ast is not None and any(norm(c) == f"{fn}(self.{fname})" or (dotted(c.func) == fn and c.args and f"self.{fname}" in norm(c.args[0])) for c in ast.walk(n.ast) if isinstance(c, ast.Call))]
+            nodes_ = [n for n in g.stmts() if n.kind == "stmt" and n.ast is not None and any(norm(c) == f"{fn}(self.{fname})" or (dotted(c.func) == fn and allargs(c) and f"self.{fname}" in norm(allargs(c)[0])) for c in ast.walk(n.ast) if isinstance(c, ast.Call))]
             if not nodes_:
                 ctx.fail(f"settings::{ci.qualname}::{fname}", f"setting {fname} is never passed to {fn}: an invalid value is only discovered after files have been written", pi.loc())
                 continue
@@ -1092,7 +1092,7 @@ def c17_r1(ctx):
                 return pth
             return None
         o = Interp(sd, at, is_effect=eff).run()
-        sets = [{norm(e.args[1]) for e in x.effects if norm(e.args[0]) == "self"} for x in o]
+        sets = [{norm(allargs(e)[1]) for e in x.effects if norm(allargs(e)[0]) == "self"} for x in o]
         if not nm and not pth:
             good = bool(o) and all(s_ == {"'base_client_name'", "'base_client_file_path'"} for s_ in sets)
             what = "both unset -> packaged defaults"
@@ -1185,7 +1185,7 @@ def _has_write_effect(repo, fi: FuncInfo, seen=None, depth=0) -> bool:
             continue
         if isinstance(c.func, ast.Attribute) and c.func.attr in WRITE_EFFECT_ROOTS:
             return True
-        if isinstance(c.func, ast.Name) and c.func.id == "open" and len(c.args) > 1 and isinstance(c.args[1], ast.Constant) and "w" in str(c.args[1].value):
+        if isinstance(c.func, ast.Name) and c.func.id == "open" and len(allargs(c)) > 1 and isinstance(allargs(c)[1], ast.Constant) and "w" in str(allargs(c)[1].value):
             return True
         tgt = None
         if isinstance(c.func, ast.Name):
@@ -1268,7 +1268,7 @@ def c17_r6(ctx):
                     alias.add(st.targets[0].id)
                 elif isinstance(v, ast.Call) and isinstance(v.func, ast.Attribute) and v.func.attr == "copy" and isinstance(v.func.value, ast.Call) and dotted(v.func.value.func) == "get_section":
                     copies.add(st.targets[0].id)
-                elif isinstance(v, ast.Call) and dotted(v.func) in ("dict", "copy.deepcopy", "deepcopy") and v.args and "get_section" in norm(v.args[0]):
+                elif isinstance(v, ast.Call) and dotted(v.func) in ("dict", "copy.deepcopy", "deepcopy") and allargs(v) and "get_section" in norm(allargs(v)[0]):
                     copies.add(st.targets[0].id)
         bad = []
         for n in walk_no_nested(fi.node):
